@@ -509,13 +509,12 @@ def decide_order_paths(body, names, spec, assume):
     nm = {q: names[K.alpha(q, body)] for q in qs if K.alpha(q, body) in names}
     if [q for q in qs if q not in nm] or not nm:
         return False, "compares quantities outside the specification: %s" % [q for q in qs if q not in nm]
-    snames = sorted(set(nm.values()))
+    # every quantity of the specification is varied, also one the function never looks at (it must then not matter)
+    snames = sorted(set(nm.values()) | set(getattr(spec, "quantities", ())))
     k = max(len(snames), 2)
     n = 0
     for vals in itertools.product(range(k), repeat=len(snames)):
         senv = dict(zip(snames, vals))
-        for q_ in getattr(spec, "quantities", ()):
-            senv.setdefault(q_, 0)
         if assume and not assume(senv):
             continue
         n += 1
@@ -669,6 +668,7 @@ def run(ctx):
     mp_sig = MustPass(f, K.sink_verify_sig, name="aws_lc_rs verify_sig")
     is_vi = lambda c: K.res_matches(c, r"resources::(ipres::IpBlocks|asres::AsBlocks)::verify_issued$")
     mp_issued = MustPass(f, is_vi, name="verify_issued")
+    is_vi_term = lambda t: strip(t)[0] == "call" and re.search(r"resources::(ipres::IpBlocks|asres::AsBlocks)::verify_issued$", strip(t)[1] or "") is not None
 
     def window_mps(ev, me, issuer, now):
         """On the entry view: not_before <= now and now <= not_after of the certificate's own validity."""
@@ -762,7 +762,8 @@ def run(ctx):
         fn = CERT + e
         if not f.body(fn):
             continue
-        ok = (mp_issued.holds(fn) and not _EV_ONLY) or on_ev(e, lambda ev, me, issuer, now: _mp(evf, "verify_issued", sink=is_vi), "vi")
+        ok = (mp_issued.holds(fn) and not _EV_ONLY) or on_ev(e, lambda ev, me, issuer, now: _mp(
+            evf, "verify_issued", sink=is_vi, guard=lambda b, s_, bb: ok_edges(f, b, s_, bb, is_vi_term)), "vi")
         ctx.ob("R-CHK", "%s→verify_issued" % e, ok,
                "every success path of Cert::%s runs the resource issuance check" % e,
                where=f.body(fn).loc, detail=None if ok else K.why(f, mp_issued, fn))
